@@ -84,7 +84,10 @@ def gen_base(rng, tier, index):
             call["result_size"] = rng.choice([70_000, 200_000])
             call["n"] = min(n, 8)
         calls.append(call)
-    return {"kind": kind, "pool": kind, "workers": workers, "calls": calls}
+    return {"kind": kind, "pool": kind, "workers": workers, "calls": calls,
+            # all generators of a FunctorMap created first and consumed one after the other; the calls made from a thread
+            # other than the main one
+            "create_all_first": kind == "fmap" and index % 4 == 3, "side_thread": index % 4 == 2}
 
 
 def owns(kind, mech, case, result):
